@@ -27,6 +27,7 @@ RULE += (' ' + 'Also varied: an older compressed copy <name>.gz next to the SED 
 RULE += (' ' + 'Aperture axis stored ascending / descending / rotated, cells compared by aperture value.')
 RULE += (' ' + 'A quarter of the cubes hold names longer than 30 characters, several sharing their first 30.')
 RULE += (' ' + 'The cube read back from the file is written out again and the second file examined like the first.')
+RULE += (' ' + 'The SED object is written a second time and the second file examined like the first.')
 ASSUMPTIONS = [
     'values are requested in the unit they were stored in; equality within 1e-13 relative (unit algebra rounds), exact '
     'for convolved-flux tables',
@@ -174,27 +175,38 @@ def run_sed(case, ctx):
             labels.add('older_gz_copy_next_to_the_file')
         with must_succeed('SED.write'):
             s.write(path)
-        for order in (case['order'], 'wav' if case['order'] == 'nu' else 'nu'):
-            with must_succeed('SED.read(unit_flux=%s, order=%s)' % (case['unit'], order)):
-                r = SED.read(path, unit_flux=un, order=order)
-            what = 'SED supplied in %s wavelength, unit %s' % ('increasing' if case['supplied'] == 'asc' else 'decreasing', case['unit'])
-            idx = check_spectral(r, case, order, what, 'flux', 'error')
-            if r.name != s.name or not close(r.distance.to(u.cm).value, s.distance.to(u.cm).value):
-                fail('%s: name / distance changed (%r, %r)' % (what, r.name, r.distance), 'c12:sed_meta')
-            if r.flux.shape != (nap, len(idx)) or r.error.shape != (nap, len(idx)):
-                fail('%s: flux shape %r' % (what, r.flux.shape), 'c12:sed_shape')
-            fv, ev = np.asarray(r.flux.to(un).value), np.asarray(r.error.to(un).value)
-            if case['with_ap']:
-                pos = ap_positions(r.apertures.to(u.au).value, case['apertures'][:nap], what, 'c12:sed_apertures')
-                fv, ev = fv[pos, :], ev[pos, :]
-            for a in range(nap):
-                for p, i in enumerate(idx):
-                    if not close(fv[a][p], case['val'][0][a][i]):
-                        fail('%s, read with order=%s: flux at %r micron (aperture %d) is %r, stored %r' % (
-                            what, order, case['wav'][i], a, fv[a][p], case['val'][0][a][i]), 'c12:sed_flux_at_wrong_wavelength')
-                    if not close(ev[a][p], case['unc'][0][a][i]):
-                        fail('%s, read with order=%s: error at %r micron (aperture %d) is %r, stored %r' % (
-                            what, order, case['wav'][i], a, ev[a][p], case['unc'][0][a][i]), 'c12:sed_error_at_wrong_wavelength')
+
+        def examine_sed(path, gen_):
+            # reads the file in both spectral orders and compares every cell with what was supplied
+            for order in (case['order'], 'wav' if case['order'] == 'nu' else 'nu'):
+                with must_succeed('SED.read(unit_flux=%s, order=%s)' % (case['unit'], order)):
+                    r = SED.read(path, unit_flux=un, order=order)
+                what = gen_ + 'SED supplied in %s wavelength, unit %s' % ('increasing' if case['supplied'] == 'asc' else 'decreasing', case['unit'])
+                idx = check_spectral(r, case, order, what, 'flux', 'error')
+                if r.name != s.name or not close(r.distance.to(u.cm).value, s.distance.to(u.cm).value):
+                    fail('%s: name / distance changed (%r, %r)' % (what, r.name, r.distance), 'c12:sed_meta')
+                if r.flux.shape != (nap, len(idx)) or r.error.shape != (nap, len(idx)):
+                    fail('%s: flux shape %r' % (what, r.flux.shape), 'c12:sed_shape')
+                fv, ev = np.asarray(r.flux.to(un).value), np.asarray(r.error.to(un).value)
+                if case['with_ap']:
+                    pos = ap_positions(r.apertures.to(u.au).value, case['apertures'][:nap], what, 'c12:sed_apertures')
+                    fv, ev = fv[pos, :], ev[pos, :]
+                for a in range(nap):
+                    for p, i in enumerate(idx):
+                        if not close(fv[a][p], case['val'][0][a][i]):
+                            fail('%s, read with order=%s: flux at %r micron (aperture %d) is %r, stored %r' % (
+                                what, order, case['wav'][i], a, fv[a][p], case['val'][0][a][i]), 'c12:sed_flux_at_wrong_wavelength')
+                        if not close(ev[a][p], case['unc'][0][a][i]):
+                            fail('%s, read with order=%s: error at %r micron (aperture %d) is %r, stored %r' % (
+                                what, order, case['wav'][i], a, ev[a][p], case['unc'][0][a][i]), 'c12:sed_error_at_wrong_wavelength')
+        examine_sed(path, '')
+        # the object that was written is used again: written a second time (a corrected header, another directory), the
+        # second file says the same as the first
+        path2 = os.path.join(d, 'again_sed.fits')
+        with must_succeed('SED.write of the same object a second time'):
+            s.write(path2)
+        examine_sed(path2, 'second file written from the same object: ')
+        labels.add('sed_object_written_twice')
         # requesting the other order ONLY reverses the spectral axis - also when a flux unit of another family is
         # requested (the default unit_flux of SED.read is erg/cm^2/s whatever the file holds)
         others = [x for x in UNITS if x != case['unit']]
